@@ -51,13 +51,6 @@ theorem scrubAll_mem (reqs : List Req) : ∀ (bs : List Builder) (b' : Builder),
       · obtain ⟨h1, b0, hb0, h2⟩ := scrubAll_mem reqs r b' h
         exact ⟨h1, b0, List.mem_cons_of_mem _ hb0, h2⟩
 
-theorem scrubAll_length (reqs : List Req) : ∀ (bs : List Builder), (scrubAll reqs bs).1.length ≤ bs.length
-  | [] => by simp [scrubAll]
-  | b :: r => by
-    have := scrubAll_length reqs r
-    simp only [scrubAll]
-    split <;> simp only [List.length_cons] <;> omega
-
 theorem cnt_sublist (t : Nat) {a b : List Builder} (h : (topicsOf a).Sublist (topicsOf b)) : cnt t a ≤ cnt t b := by
   have e : ∀ l : List Builder, cnt t l = ((topicsOf l).filter fun x => decide (x ≤ t)).length := by
     intro l
@@ -68,90 +61,5 @@ theorem cnt_sublist (t : Nat) {a b : List Builder} (h : (topicsOf a).Sublist (to
       by_cases hx : (x.topic : Nat) ≤ t <;> simp [hx] <;> omega
   rw [e, e]
   exact (h.filter _).length_le
-
-/-! ## unconditional frame of `publishError` -/
-
-theorem publishError_shape (pick : Pick) (s : State) (m : InFlight) :
-    (s.publishError pick m).builders = (scrubAll m.streams s.builders).1 ∧
-    (s.publishError pick m).token = s.token ∧ (s.publishError pick m).done = s.done ∧
-    (s.publishError pick m).pc = s.pc ∧ (s.publishError pick m).maxRetries = s.maxRetries ∧
-    (s.publishError pick m).sender = s.sender := by
-  unfold State.publishError
-  simp only
-  generalize hsc : scrubAll m.streams
-    (({ s with closedStreams := m.streams.foldl (fun acc r => if acc.contains r then acc else acc ++ [r]) s.closedStreams } : State).emit
-      (m.streams.map Event.streamClosed)).builders = sc
-  have hsc' : sc = scrubAll m.streams s.builders := by rw [← hsc]; rfl
-  obtain ⟨bs, freed⟩ := sc
-  simp only
-  have q : ∀ s3 : State, QFrame s3 (((if freed > 0 then s3.release pick freed else s3).publish m.topic Kind.error).release pick m.size) := by
-    intro s3
-    have q1 : QFrame s3 (if freed > 0 then s3.release pick freed else s3) := by
-      split
-      · exact release_qframe _ _ _
-      · exact QFrame.refl _
-    exact (q1.trans (publish_frame _ _ _).q).trans (release_qframe _ _ _)
-  have := q ({ ({ s with closedStreams := m.streams.foldl (fun acc r => if acc.contains r then acc else acc ++ [r]) s.closedStreams } : State).emit
-      (m.streams.map Event.streamClosed) with builders := bs } : State)
-  refine ⟨?_, this.token, this.done, this.pc, this.maxRetries, this.sender⟩
-  rw [this.builders]
-  show bs = _
-  rw [← hsc']
-
-/-! ## `extract` -/
-
-theorem dropEmpty_pre : ∀ (bs : List Builder), ∃ pre, bs = pre ++ dropEmpty bs ∧ ∀ b ∈ pre, b.empty = true
-  | [] => ⟨[], rfl, by simp⟩
-  | b :: r => by
-    simp only [dropEmpty]
-    split
-    · next he =>
-      obtain ⟨pre, h, hp⟩ := dropEmpty_pre r
-      refine ⟨b :: pre, by rw [List.cons_append, ← h], ?_⟩
-      intro x hx
-      rcases List.mem_cons.mp hx with rfl | hx
-      · exact he
-      · exact hp x hx
-    · exact ⟨[], rfl, by simp⟩
-
-theorem dropEmpty_head {bs : List Builder} {b : Builder} {rest : List Builder} (h : dropEmpty bs = b :: rest) :
-    b.empty = false := by
-  induction bs with
-  | nil => simp [dropEmpty] at h
-  | cons x r ih =>
-    simp only [dropEmpty] at h
-    split at h
-    · exact ih h
-    · next hx => cases h; simpa using hx
-
-/-- what `extractOutgoingMessage` does to the queue and the work signal -/
-theorem extract_shape (s : State) :
-    (∀ s', s.extract = (s', none) → s'.builders = [] ∧ (∀ b ∈ s.builders, b.empty = true) ∧ s'.token = s.token ∧
-      s'.pc = s.pc ∧ s'.done = s.done ∧ s'.maxRetries = s.maxRetries ∧ s'.sender = s.sender) ∧
-    (∀ s' m, s.extract = (s', some m) → ∃ pre b, s.builders = pre ++ b :: s'.builders ∧ (∀ x ∈ pre, x.empty = true) ∧
-      b.empty = false ∧ m.topic = b.topic ∧ s'.token = (s.token || !s'.builders.isEmpty) ∧
-      s'.pc = s.pc ∧ s'.done = s.done ∧ s'.maxRetries = s.maxRetries ∧ s'.sender = s.sender) := by
-  obtain ⟨pre, hpre, hemp⟩ := dropEmpty_pre s.builders
-  unfold State.extract
-  cases hd : dropEmpty s.builders with
-  | nil =>
-    simp only
-    constructor
-    · intro s' he; cases he
-      rw [hd, List.append_nil] at hpre
-      exact ⟨rfl, by rw [hpre]; exact hemp, rfl, rfl, rfl, rfl, rfl⟩
-    · intro s' m he; cases he
-  | cons b rest =>
-    simp only
-    constructor
-    · intro s' he; cases he
-    · intro s' m he
-      simp only [Prod.mk.injEq, Option.some.injEq] at he
-      obtain ⟨he1, he2⟩ := he
-      subst he1 he2
-      have f := subscribe_frame ({ s with builders := rest, token := s.token || !rest.isEmpty }) b.topic (dedupSubs b.subs)
-      refine ⟨pre, b, ?_, hemp, dropEmpty_head hd, rfl, ?_, f.pc, f.done, f.maxRetries, f.sender⟩
-      · rw [f.builders]; rw [hd] at hpre; exact hpre
-      · rw [f.token, f.builders]
 
 end GS.MQ
